@@ -245,6 +245,45 @@ def run(tier, seed):
             if o.get("file_after") not in ("valid", None):
                 drift.append({"history": _h(b["hist"]), "build": j + 1, "file_after": o.get("file_after")})
     cov["model_drift"] = {"cache_not_rewritten": len(drift), "notes": drift[:3]}
+    # ---- a subclass that declares one more rule runs with the tables of ITS grammar, whether or not a plain parser was built first ---------
+    EXT_SRC = (
+        "import json, sys, logging\n"
+        "logging.disable(logging.CRITICAL)\n"
+        "from simple_ddl_parser import DDLParser\n"
+        "class Ext(DDLParser):\n"
+        "    def p_expression_maintenance(self, p):\n"
+        "        'expr : id id id'\n"
+        "        p[0] = {'maintenance': p[1], 'mode': p[2], 'target': p[3]}\n"
+        "out = {}\n"
+        "if sys.argv[1] == 'plain_first':\n"
+        "    pl = DDLParser('CREATE TABLE plain (a int PRIMARY KEY);')\n"
+        "    out['plain'] = pl.run()\n"
+        "    out['plain_productions'] = len(pl.yacc.productions)\n"
+        "ex = Ext('VACUUM FULL t1;\\nCREATE TABLE t1 (a int, b varchar(3) NOT NULL);\\n')\n"
+        "out['ext'] = ex.run()\n"
+        "out['ext_productions'] = len(ex.yacc.productions)\n"
+        "out['plain_after'] = DDLParser('CREATE TABLE plain (a int PRIMARY KEY);').run()\n"
+        "json.dump(out, sys.stdout, default=repr)\n")
+    ext_obs = {}
+    for order in ("ext_only", "plain_first"):
+        sc3 = make_scratch()
+        try:
+            with open(os.path.join(sc3, "simple_ddl_parser", "parsetab.py"), "w") as f:
+                f.write(valid_text)
+            with open(os.path.join(sc3, "ext_child.py"), "w") as f:
+                f.write(EXT_SRC)
+            env = dict(os.environ, PYTHONPATH=sc3, PYTHONDONTWRITEBYTECODE="1")
+            env.pop(C.GUARD, None)
+            pr = subprocess.run([C.PY, "ext_child.py", order], cwd=sc3, env=env, stdout=subprocess.PIPE, stderr=subprocess.PIPE, text=True)
+            ext_obs[order] = json.loads(pr.stdout) if pr.returncode == 0 else {"died": pr.stderr[-300:]}
+        finally:
+            shutil.rmtree(sc3, ignore_errors=True)
+    a_, b_ = ext_obs["ext_only"], ext_obs["plain_first"]
+    if "died" in a_ or "died" in b_ or a_.get("ext") != b_.get("ext") or a_.get("ext_productions") != b_.get("ext_productions") \
+            or b_.get("ext_productions") != b_.get("plain_productions", 0) + 1 or a_.get("plain_after") != b_.get("plain"):
+        V.mismatch({"problem": "a parser subclass with one more grammar rule does not run with the tables of its own grammar when a plain parser was built first",
+                    "subclass_alone": a_, "after_a_plain_parser": b_})
+    cov["extended_grammar_subclass"] = {"productions": [a_.get("ext_productions"), b_.get("ext_productions"), b_.get("plain_productions")]}
     # ---- the command line in every cache state: what `sdp file --no-dump` / `-v` prints must be what it prints with a valid cache ------------
     cli_in = "CREATE TABLE s.t (a int, b varchar(5) NOT NULL);\nCREATE SEQUENCE s.q START 5;\n"
     cli_out = {}
